@@ -176,7 +176,13 @@ func HChildKeys() {
 	skd := vr.Bytes(vPrfLen[pi])
 	ike := &IKESAKey{PrfInfo: prf.StrToType(vPrfNames[pi]), SK_d: skd}
 	ike.Prf_d = ike.PrfInfo.Init(skd)
-	if junk >= 2000 {
+	if junk >= 3000 {
+		// an IKE SA object with all its descriptors set, as the IKE SA constructors leave it (what the Child
+		// SA gets depends on its own transforms only)
+		ike.DhInfo = dh.StrToType(dh.DH_2048_BIT_MODP)
+		ike.EncrInfo = encr.StrToType(vEncrNames[(ei+1)%3])
+		ike.IntegInfo = integ.StrToType(vIntegNames[(ii+1)%3])
+	} else if junk >= 2000 {
 		// an SA object that holds the derivation key only inside its PRF object (raw key wiped / never
 		// stored, as in the repository's own test): the ready-made object is what derivations use
 		ike.SK_d = nil
